@@ -16,6 +16,8 @@ pub struct RunStats {
     /// bounded event log (what happened, in order); goes into replay files
     pub events: Vec<String>,
     pub events_dropped: u64,
+    /// records a run hands to the supervisor (written to a per-scenario file, in run order)
+    pub emits: Vec<String>,
 }
 
 thread_local! {
@@ -83,6 +85,11 @@ pub fn event(f: impl FnOnce() -> String) {
             s.events_dropped += 1;
         }
     });
+}
+
+/// hands a record to the supervisor; it ends up in target/digests/<scenario>-<config>.txt
+pub fn emit(line: String) {
+    STATS.with(|s| s.borrow_mut().emits.push(line));
 }
 
 pub fn sample(f: impl FnOnce() -> String) {
